@@ -9,6 +9,16 @@ claim("C04",
       "Trusted: python ast, sa/ table model (re-validated against statements.py each run), LP64 ISO_C_BINDING table.",
       "DESIGN.md §4 C04")
 
+claim("C05",
+      "uses-subset-of-provides analysis over statement/type/helper tables and inline templates (format-field def/use, "
+      "helper closure, libc headers, ISO_C_BINDING imports, option templates, emitter attributes, visitor coverage)",
+      "Decides the clause 'no emitted fragment references something that is never provided': every template field, "
+      "helper function, libc header, Fortran module symbol, option template and visitor method that generated code or "
+      "the generator itself relies on is defined by the table entry/emitter that uses it. Whole-file compilability of "
+      "generated output is not decided (needs the target compilers).",
+      "Trusted: python ast, sa/ table models, over-approximate field universe (a report means no definition exists at all).",
+      "DESIGN.md §4 C05")
+
 PENDING = "check not built yet in this session (fail-closed: not claimed until its rules run clean)"
-for _p in ["C01","C02","C03","C05","C06","C07","C08","C09","C10","C11","C12","C13","C14","C15","C16","C17","C18"]:
+for _p in ["C01","C02","C03","C06","C07","C08","C09","C10","C11","C12","C13","C14","C15","C16","C17","C18"]:
     na(_p, PENDING)
